@@ -710,6 +710,26 @@ where
 }
 
 /// Walks the directory tree and collects matching files in parallel into a vector
+/// Returns the identifier of the file that the standard output goes to,
+/// if it is a regular file.
+#[cfg(unix)]
+fn stdout_file_id() -> Option<FileId> {
+    use nix::sys::stat::{fstat, SFlag};
+    let stat = fstat(libc::STDOUT_FILENO).ok()?;
+    if stat.st_mode & SFlag::S_IFMT.bits() != SFlag::S_IFREG.bits() {
+        return None;
+    }
+    Some(FileId {
+        device: stat.st_dev as u64,
+        inode: stat.st_ino as InodeId,
+    })
+}
+
+#[cfg(not(unix))]
+fn stdout_file_id() -> Option<FileId> {
+    None
+}
+
 fn scan_files(ctx: &GroupCtx<'_>) -> Vec<Vec<FileInfo>> {
     let file_collector = ThreadLocal::new();
     let file_count = AtomicUsize::new(0);
@@ -737,10 +757,16 @@ fn scan_files(ctx: &GroupCtx<'_>) -> Vec<Vec<FileInfo>> {
     walk.on_visit = spinner_tick;
     // The report file has been created already, and it is not one of the files to report.
     let output = config.output.as_ref().map(|p| Path::from(p).canonicalize());
+    // The same holds for the file that the standard output has been redirected to.
+    let redirected_output = match config.output {
+        None => stdout_file_id(),
+        Some(_) => None,
+    };
     walk.run(ctx.config.input_paths_logged(Some(ctx.log)), |path| {
         file_info_or_log_err(path, &ctx.devices, ctx.log)
             .into_iter()
             .filter(|info| Some(&info.path) != output.as_ref())
+            .filter(|info| Some(info.id) != redirected_output)
             .filter(|info| {
                 let l = info.len;
                 l >= min_size && l <= max_size
